@@ -49,6 +49,13 @@ def compounds():
             ("(1+2j)*(R@M)", (1 + 2j) * (pylops.Restriction(5, np.array([0, 3]), dtype="complex128") @ zoo._leaf(("c17", "M"), 5, 7, True))),
             ("Cc.H (wide)", Cc.H), ("Cc.T (wide)", Cc.T), ("Cc.H.conj()", Cc.H.conj()), ("(Cc.H)*D2", Cc.H * zoo._leaf(("c17", "D2"), 4, 4, True)),
             ("HStack cplx", pylops.HStack([D, 2j * D])),
+            # complex action under a REAL declared dtype (Diagonal's default dtype), through the generic matmat
+            ("Dc*D2 (real declared dtype)", pylops.Diagonal(np.array([1 + 2j, 3 - 1j, 2j, 1.0])) * pylops.Diagonal(np.array([2.0, 1, -1, 3]))),
+            ("Dc+I (real declared dtype)", pylops.Diagonal(np.array([1 + 2j, 3 - 1j, 2j])) + pylops.Identity(3)),
+            # wide compounds containing a power (todense goes through rmatmat of the power)
+            ("B2*A3**2", zoo._leaf(("c17", "B2"), 2, 3) * zoo._leaf(("c17", "A3"), 3, 3) ** 2),
+            ("B2c*(A3c**2+A3c)", zoo._leaf(("c17", "B2c"), 2, 3, True) * (zoo._leaf(("c17", "A3c"), 3, 3, True) ** 2 + zoo._leaf(("c17", "A3c"), 3, 3, True))),
+            ("(A3**3*B2.H).H", (zoo._leaf(("c17", "A3"), 3, 3) ** 3 * zoo._leaf(("c17", "B2"), 2, 3).H).H),
             ("tiny*FirstDerivative", 2.0 ** -34 * pylops.FirstDerivative(6)), ("Diagonal tiny", pylops.Diagonal(np.array([1.0, 2.0 ** -30, 2.0 ** -40, 3.0]))),
             ("Diagonal tiny imag", pylops.Diagonal(np.array([1.0, 2.0 ** -35 * 1j, 2.0]), dtype="complex128")), ("-(1j*A)", -(1j * A)), ("(1j*A)**1", (1j * zoo._leaf(("c17", "S"), 3, 3)) ** 2)]
     return out
@@ -81,7 +88,12 @@ def explicit_cases(tier):
 
 
 def _views(op):
-    views = [("todense", np.asarray(op.todense())), ("tosparse", np.asarray(op.tosparse().toarray()))]
+    views = [("todense", np.asarray(op.todense()))]
+    # tosparse() casts to the DECLARED dtype by design: where the declaration is real and the action complex (a user
+    # mis-declaration, Diagonal(complex) with its default dtype) only the dense view is judged
+    cplx_action = np.iscomplexobj(views[0][1]) and not np.iscomplexobj(np.ones(1, dtype=op.dtype))
+    if not cplx_action:
+        views.append(("tosparse", np.asarray(op.tosparse().toarray())))
     if op.explicit and hasattr(op, "A"):
         A = op.A
         views.append(("A", np.asarray(A.toarray() if hasattr(A, "toarray") else A)))
@@ -109,6 +121,16 @@ def _explicit_extras(rec, op, C, r, cplx):
             y = y.real
         x = np.asarray(op / y)
         divs.append((y, x, m > n))
+        xn = np.asarray(op.div(y, densesolver="numpy"))
+        divs.append((y, xn, m > n))
+    if not cplx:
+        # real explicit matrix, complex right-hand side, both dense solvers
+        yc = np.array([complex(r.randint(-5, 5), r.randint(-5, 5)) for _ in range(m)])
+        for ds in ("scipy", "numpy"):
+            try:
+                divs.append((yc, np.asarray(op.div(yc, densesolver=ds)), m > n))
+            except Exception as e:
+                rec["error"] = "div(densesolver=%s) with a complex right-hand side raised %s" % (ds, type(e).__name__)
     rec["div"] = divs
 
 
